@@ -192,7 +192,9 @@ C04_PressPitch(X) ==
      LET n == KeyPitch(X.c, X.pre, X.in.k)
          ch == KeyChan(X.c, X.pre, X.in.k)
      IN IF n \in 0..127
-          THEN \A i \in NoteOns(X.o) : X.o[i] = NoteOnMsg(ch, n, X.c.vel)
+          THEN /\ \A i \in NoteOns(X.o) : X.o[i] = NoteOnMsg(ch, n, X.c.vel)
+               \* "a key press sounds ...": the first holder's press does send the Note On, in every collision mode
+               /\ (Get0(X.pre.cnt, <<ch, n>>) = 0 => NoteOns(X.o) # {})
           ELSE X.o = <<>>
 
 \* presses of keys that play nothing produce nothing
@@ -360,10 +362,15 @@ C08_Off(X) ==
 C08_Exclusive(X) ==
   KeyAxisStep(X) => Cardinality({id \in DOMAIN X.apair1 : id[1] = X.in.a}) <= 1
 
+\* ... and only when it is due: the direction's note goes off in the centre zone (below 49 %) or when the other
+\* direction is reached - not in the band between 49 % and 50 %, not while the deflection lasts
 C08_Pinned(X) ==
   KeyAxisStep(X) =>
-    \A i \in NoteOffs(X.o) :
-       \E dd \in {"pos", "neg"} : <<X.in.a, dd>> \in DOMAIN X.apair0 /\ X.apair0[<<X.in.a, dd>>] = PairOf(X.o[i])
+    LET d == DirOf(WorkPos(X.c, X.pre, X.in.a, X.in.raw))
+        centre == RInCentre(WorkPos(X.c, X.pre, X.in.a, X.in.raw))
+    IN \A i \in NoteOffs(X.o) :
+         \E dd \in {"pos", "neg"} : /\ <<X.in.a, dd>> \in DOMAIN X.apair0 /\ X.apair0[<<X.in.a, dd>>] = PairOf(X.o[i])
+                                    /\ (centre \/ (d # "none" /\ d # dd))
 
 -----------------------------------------------------------------------------
 (* C13  Panic                                                               *)
